@@ -287,6 +287,9 @@ async def islice(iterable: AnyIterable[T], *args: Optional[int]) -> AsyncIterato
             async for _count, element in aenumerate(_borrow(async_iter), start=1):
                 if _count == start:
                     break
+            else:
+                # exhausted before reaching ``start``: do not poll the iterator again
+                return
         if stop is None:
             async for idx, element in aenumerate(async_iter, start=0):
                 if not idx % step:
